@@ -458,6 +458,9 @@ func Main(args []string) int {
 	evals := allStrings([]string{"a", "\\", "n", "t", "x"}, tl)
 	runProgram([]*node{{t: "unescape", key: 1}}, recs1(evals), []bool{false})
 	runProgram([]*node{{t: "unescape", key: 1}, {t: "unescape", key: 2}}, [][]string{{"a\\nb", "c\\td"}, {"\\\\", "\\"}}, []bool{false, true})
+	// unescape is once per record: the first step marks the record even if its own field is empty or has nothing to unescape
+	runProgram([]*node{{t: "unescape", key: 1}, {t: "unescape", key: 2}, {t: "if", match: []matchItem{{idx: 3, op: "any"}}, then: []*node{{t: "unescape", key: 3}}}},
+		[][]string{{"plain", "c\\td", "e\\nf"}, {"", "x\\ny", "z\\\\"}, {"a\\tb", "plain", ""}, {"", "", "q\\n"}}, []bool{false})
 	runProgram([]*node{{t: "switch", cases: []caseItem{
 		{match: []matchItem{{idx: 1, op: "start", arg: "a"}}, then: []*node{{t: "addFields", dest: 3, parts: [][]any{{"lit", "A"}}}}},
 		{match: []matchItem{{idx: 1, op: "contain", arg: "b"}}, then: []*node{{t: "drop", match: []matchItem{{idx: 1, op: "any"}}, rate: 100, label: "b"}}},
